@@ -320,8 +320,17 @@ impl<'p> Gen<'p> {
     }
 }
 
+
 pub fn generate(profile: &str, seed: u64) -> Scenario {
     match profile {
+        "C06" => gen_c06(seed),
+        "C07" => gen_c07(seed),
+        "C08" => gen_c08(seed),
+        "C09" => gen_c09(seed),
+        "C13" => gen_quiescent(seed, false),
+        "C17" => gen_quiescent(seed, true),
+        "C10" => gen_panics(profile, seed, true),
+        "C11" => gen_panics(profile, seed, false),
         _ => gen_general(profile, seed, &Params::base()),
     }
 }
@@ -333,4 +342,355 @@ pub fn gen_general(profile: &str, seed: u64, p: &Params) -> Scenario {
     let program = g.program(&w);
     let cfg = g.cfg(60);
     Scenario { world: w, program, cfg, profile: profile.to_string() }
+}
+
+/// C09: at least one retrying collection against anything, contention, try-refusal on
+pub fn gen_c09(seed: u64) -> Scenario {
+    let mut p = Params::base();
+    p.coll_kinds = vec![CollKind::Retry, CollKind::Retry, CollKind::Retry, CollKind::Boxed, CollKind::Ref];
+    p.single_pct = 10;
+    p.target_elems = (1, 4);
+    p.leaves = (2, 4);
+    p.threads = (2, 4);
+    p.try_refuse = vec![0, 10, 20, 30];
+    p.nonacq_pct = 0;
+    p.keyprobe_pct = 0;
+    p.body_ops = (0, 2);
+    let mut g = Gen::new(seed, &p);
+    let mut w = g.world_base();
+    g.add_targets(&mut w);
+    // make sure a retrying target with >= 2 elements exists
+    let all = Gen::elems_of(&w);
+    if all.len() >= 2 {
+        let es = g.random_subset(&all, (2, 4));
+        let mut members: Vec<TSpec> = es.iter().map(|e| match e { Elem::Leaf(l) => TSpec::Leaf(*l), Elem::Unit(u) => TSpec::Unit(*u) }).collect();
+        g.rng.shuffle(&mut members);
+        let cont = g.pick_cont(members.len());
+        w.targets.push(TSpec::Coll { kind: CollKind::Retry, cont, members, poison: false });
+    }
+    let program = g.program(&w);
+    let cfg = g.cfg(80);
+    Scenario { world: w, program, cfg, profile: "C09".into() }
+}
+
+/// C10 / C11: user panics inside holds; C10 adds poison-heavy leaves and clear/is_poisoned ops
+pub fn gen_panics(profile: &str, seed: u64, poison_heavy: bool) -> Scenario {
+    let mut p = Params::base();
+    p.panic_pct = 35;
+    p.keyprobe_pct = 3;
+    p.acqs = (1, 4);
+    if poison_heavy {
+        p.leaf_kinds = vec![LeafKind::PM, LeafKind::PR, LeafKind::PPM, LeafKind::PPR, LeafKind::PM, LeafKind::PR, LeafKind::M, LeafKind::R];
+        p.poison_coll_pct = 30;
+        p.nonacq_pct = 15;
+        p.leaves = (1, 4);
+        p.threads = (1, 3);
+    }
+    gen_general(profile, seed, &p)
+}
+
+/// C06: key histories. Every thread works on its own locks (leaked guards keep locks held
+/// for ever), try APIs on locks the thread itself leaked exercise the failure paths.
+pub fn gen_c06(seed: u64) -> Scenario {
+    let mut p = Params::base();
+    p.unit_pct = 15;
+    p.leaves = (2, 5);
+    p.panic_pct = 15;
+    p.keyprobe_pct = 30;
+    p.nonacq_pct = 0;
+    p.shared_ref_pct = 0;
+    let mut g = Gen::new(seed, &p);
+    let mut w = g.world_base();
+    let all = Gen::elems_of(&w);
+    let nthreads = g.rng.range(1, 2);
+    // partition the elements among the threads
+    let mut own: Vec<Vec<Elem>> = vec![Vec::new(); nthreads];
+    for e in &all {
+        let t = g.rng.below(nthreads);
+        own[t].push(e.clone());
+    }
+    let mut thread_targets: Vec<Vec<usize>> = vec![Vec::new(); nthreads];
+    for t in 0..nthreads {
+        if own[t].is_empty() {
+            continue;
+        }
+        let nt = g.rng.range(1, 3);
+        for _ in 0..nt {
+            let es = g.random_subset(&own[t].clone(), (1, 3));
+            let spec = g.target_over(&w, &es, 1, true);
+            w.targets.push(spec);
+            thread_targets[t].push(w.targets.len() - 1);
+        }
+    }
+    let mut threads = Vec::new();
+    for t in 0..nthreads {
+        let n = g.rng.range(3, 12);
+        let mut steps = Vec::new();
+        let mut dead: Vec<Lid> = Vec::new();
+        for _ in 0..n {
+            let c = g.rng.below(100);
+            if c < 12 {
+                steps.push(Step::Key(KeyOp::Get));
+            } else if c < 20 {
+                steps.push(Step::Key(KeyOp::Drop));
+            } else if c < 23 {
+                steps.push(Step::Key(KeyOp::Forget));
+            } else if !thread_targets[t].is_empty() {
+                let ti = *g.rng.pick(&thread_targets[t]);
+                let mut a = g.acq(&w, ti);
+                a.rebuild = false;
+                let leaves: Vec<Lid> = w.flatten(&w.targets[ti], None).iter().map(|f| f.lid).collect();
+                let touches_dead = leaves.iter().any(|l| dead.contains(l));
+                if touches_dead && !a.api.is_try() {
+                    a.api = match a.api {
+                        Api::Lock => Api::TryLock,
+                        Api::Read => Api::TryRead,
+                        Api::ScopedLock => Api::ScopedTryLock,
+                        _ => Api::ScopedTryRead,
+                    };
+                }
+                if !a.api.is_scoped() && g.rng.chance(12, 100) {
+                    a.release = Release::Forget;
+                    a.body.retain(|b| !matches!(b, BodyOp::Panic));
+                    if !touches_dead {
+                        // the acquisition may succeed: its locks stay held for ever
+                    }
+                    dead.extend(leaves.iter().copied());
+                }
+                steps.push(Step::Acquire(a));
+            }
+        }
+        threads.push(steps);
+    }
+    let mut cfg = g.cfg(60);
+    cfg.faults.try_refuse_pct = 0;
+    Scenario { world: w, program: Program { threads }, cfg, profile: "C06".into() }
+}
+
+type Lid = usize;
+
+/// C07: member lists with and without duplicates; every construction is judged by the
+/// duplicate oracle, accepted collections are then locked once
+pub fn gen_c07(seed: u64) -> Scenario {
+    let mut p = Params::base();
+    p.leaves = (1, 5);
+    p.nest_pct = 30;
+    p.poison_coll_pct = 15;
+    let mut g = Gen::new(seed, &p);
+    let mut w = g.world_base();
+    let all = Gen::elems_of(&w);
+    let nt = g.rng.range(1, 4);
+    for ti in 0..nt {
+        let want_dup = g.rng.chance(1, 2);
+        let len = g.rng.range(0, 6);
+        let mut members: Vec<TSpec> = Vec::new();
+        let mut pool: Vec<Elem> = all.clone();
+        g.rng.shuffle(&mut pool);
+        let mut used: Vec<Elem> = Vec::new();
+        while members.len() < len {
+            // choose elements with (dup) or without replacement
+            let pick_from_used = want_dup && !used.is_empty() && g.rng.chance(35, 100);
+            let e = if pick_from_used {
+                Some(g.rng.pick(&used).clone())
+            } else {
+                pool.pop()
+            };
+            let e = match e {
+                Some(e) => e,
+                None => {
+                    if want_dup && !used.is_empty() {
+                        g.rng.pick(&used).clone()
+                    } else {
+                        break;
+                    }
+                }
+            };
+            used.push(e.clone());
+            let leafspec = match &e { Elem::Leaf(l) => TSpec::Leaf(*l), Elem::Unit(u) => TSpec::Unit(*u) };
+            let c = g.rng.below(100);
+            if c < 20 {
+                // wrap in a nested collection, possibly together with another (maybe repeated) element
+                let mut sub = vec![leafspec];
+                if g.rng.chance(1, 2) {
+                    let e2 = if want_dup && g.rng.chance(1, 3) { Some(g.rng.pick(&used).clone()) } else { pool.pop() };
+                    if let Some(e2) = e2 {
+                        used.push(e2.clone());
+                        sub.push(match &e2 { Elem::Leaf(l) => TSpec::Leaf(*l), Elem::Unit(u) => TSpec::Unit(*u) });
+                    }
+                }
+                g.rng.shuffle(&mut sub);
+                let kind = *g.rng.pick(&[CollKind::Boxed, CollKind::Ref, CollKind::Retry]);
+                let cont = g.pick_cont(sub.len());
+                let poison = kind != CollKind::Ref && g.rng.chance(1, 4);
+                members.push(TSpec::Coll { kind, cont, members: sub, poison });
+            } else if c < 30 && ti > 0 {
+                // reference an earlier shared target (referenced twice => duplicate)
+                members.push(TSpec::Shared(g.rng.below(ti)));
+            } else {
+                members.push(leafspec);
+            }
+        }
+        g.rng.shuffle(&mut members);
+        if members.len() > 7 {
+            members.truncate(7);
+        }
+        let kind = *g.rng.pick(&[CollKind::Boxed, CollKind::Ref, CollKind::Retry]);
+        let cont = g.pick_cont(members.len());
+        let poison = kind != CollKind::Ref && g.rng.chance(1, 6);
+        w.targets.push(TSpec::Coll { kind, cont, members, poison });
+    }
+    // one thread: construct again (private), lock once if accepted
+    let mut steps = Vec::new();
+    for t in 0..w.targets.len() {
+        steps.push(Step::NonAcq(NonAcqOp::Construct, t));
+        for rebuild in [false, true] {
+            let rw = w.all_rw(&w.targets[t]);
+            let api = if rw && g.rng.chance(1, 2) { Api::Read } else { Api::Lock };
+            let nflat = w.flatten(&w.targets[t], None).len();
+            let body = if nflat > 0 { vec![BodyOp::Read(g.rng.below(nflat))] } else { vec![] };
+            steps.push(Step::Acquire(Acq { target: t, rebuild, api, lent_key: false, body, release: Release::Drop }));
+        }
+    }
+    let mut cfg = g.cfg(60);
+    cfg.faults.try_refuse_pct = 0;
+    Scenario { world: w, program: Program { threads: vec![steps] }, cfg, profile: "C07".into() }
+}
+
+/// C08: several sorting collections over a shared universe in different arrangements,
+/// nested boxed/ref/retrying members, owned groups; blocking acquisitions, one or two threads
+pub fn gen_c08(seed: u64) -> Scenario {
+    let mut p = Params::base();
+    p.leaves = (2, 5);
+    p.coll_kinds = vec![CollKind::Boxed, CollKind::Ref];
+    p.single_pct = 0;
+    p.nest_pct = 35;
+    p.unit_pct = 40;
+    let mut g = Gen::new(seed, &p);
+    let mut w = g.world_base();
+    let all = Gen::elems_of(&w);
+    let nt = g.rng.range(2, 4);
+    let base = g.random_subset(&all, (2, 5));
+    for i in 0..nt {
+        let es = if i == 0 || g.rng.chance(2, 3) { base.clone() } else { g.random_subset(&all, (1, 5)) };
+        // root sorts; nested members may be of any kind
+        let mut t = {
+            let saved = g.coll_kinds.clone();
+            g.coll_kinds = vec![CollKind::Boxed, CollKind::Ref, CollKind::Retry];
+            let t = g.target_over(&w, &es, 1, false);
+            g.coll_kinds = saved;
+            t
+        };
+        if let TSpec::Coll { kind, poison, .. } = &mut t {
+            if *kind == CollKind::Retry {
+                *kind = if g.rng.chance(1, 2) { CollKind::Boxed } else { CollKind::Ref };
+            }
+            if *kind == CollKind::Ref {
+                *poison = false;
+            }
+        }
+        w.targets.push(t);
+    }
+    let nthreads = g.rng.range(1, 2);
+    let mut threads = Vec::new();
+    for _ in 0..nthreads {
+        let mut steps = Vec::new();
+        let n = g.rng.range(2, 5);
+        for _ in 0..n {
+            let t = g.rng.below(w.targets.len());
+            let rw = w.all_rw(&w.targets[t]);
+            let apis: Vec<Api> = [Api::Lock, Api::ScopedLock, Api::Read, Api::ScopedRead].into_iter().filter(|a| rw || !a.is_read()).collect();
+            let api = *g.rng.pick(&apis);
+            steps.push(Step::Acquire(Acq { target: t, rebuild: g.rng.chance(1, 3), api, lent_key: api.is_scoped() && g.rng.chance(1, 2), body: vec![], release: Release::Drop }));
+        }
+        threads.push(steps);
+    }
+    let mut cfg = g.cfg(60);
+    cfg.faults.try_refuse_pct = 0;
+    Scenario { world: w, program: Program { threads }, cfg, profile: "C08".into() }
+}
+
+/// C13 / C17: holder threads take an assignment of {free, read-held, write-held} over the
+/// elements and park; the tester then tries (C13) or runs non-acquiring operations (C17),
+/// also from inside its own guard / running closure.
+pub fn gen_quiescent(seed: u64, nonacq: bool) -> Scenario {
+    let mut p = Params::base();
+    p.leaves = (1, 4);
+    p.unit_pct = 25;
+    p.max_units = 1;
+    p.nest_pct = 30;
+    p.single_pct = 25;
+    p.poison_coll_pct = 15;
+    p.nonacq_pct = 0;
+    p.keyprobe_pct = 0;
+    let mut g = Gen::new(seed, &p);
+    let mut w = g.world_base();
+    let all = Gen::elems_of(&w);
+    // tester targets first (indices 0..nt)
+    let nt = g.rng.range(1, 3);
+    for _ in 0..nt {
+        let es = g.random_subset(&all, (0, 4));
+        let t = g.target_over(&w, &es, 1, true);
+        w.targets.push(t);
+    }
+    // holders: one per held element
+    let mut holders: Vec<Vec<Step>> = Vec::new();
+    let done_gate = 0usize;
+    let mut gates = 1usize;
+    for e in &all {
+        let c = g.rng.below(100);
+        if c < 45 {
+            continue; // free
+        }
+        let spec = match e { Elem::Leaf(l) => TSpec::Leaf(*l), Elem::Unit(u) => TSpec::Unit(*u) };
+        let rw = w.all_rw(&spec);
+        w.targets.push(spec);
+        let ti = w.targets.len() - 1;
+        let read = rw && c < 72;
+        let scoped = g.rng.chance(1, 3);
+        let api = match (read, scoped) {
+            (true, false) => Api::Read,
+            (true, true) => Api::ScopedRead,
+            (false, false) => Api::Lock,
+            (false, true) => Api::ScopedLock,
+        };
+        let my_gate = gates;
+        gates += 1;
+        holders.push(vec![Step::Acquire(Acq { target: ti, rebuild: false, api, lent_key: scoped && g.rng.chance(1, 2), body: vec![BodyOp::GateOpen(my_gate), BodyOp::GateWait(done_gate)], release: Release::Drop })]);
+        if holders.len() >= 4 {
+            break;
+        }
+    }
+    let mut tester: Vec<Step> = (1..gates).map(Step::GateWait).collect();
+    let nops = g.rng.range(1, 4);
+    for _ in 0..nops {
+        let t = g.rng.below(nt);
+        if nonacq {
+            let op = *g.rng.pick(&[NonAcqOp::Debug, NonAcqOp::Debug, NonAcqOp::IsPoisoned, NonAcqOp::ClearPoison, NonAcqOp::Accessors, NonAcqOp::Construct]);
+            let any_t = g.rng.below(w.targets.len());
+            if g.rng.chance(1, 2) {
+                tester.push(Step::NonAcq(op, any_t));
+            } else {
+                // from inside the tester's own hold (guard or closure); try APIs so that the
+                // tester itself never waits on a holder
+                let rw = w.all_rw(&w.targets[t]);
+                let apis: Vec<Api> = [Api::TryLock, Api::ScopedTryLock, Api::TryRead, Api::ScopedTryRead].into_iter().filter(|a| rw || !a.is_read()).collect();
+                let api = *g.rng.pick(&apis);
+                tester.push(Step::Acquire(Acq { target: t, rebuild: false, api, lent_key: api.is_scoped() && g.rng.chance(1, 2), body: vec![BodyOp::NonAcq(op, any_t)], release: Release::Drop }));
+            }
+        } else {
+            let rw = w.all_rw(&w.targets[t]);
+            let apis: Vec<Api> = [Api::TryLock, Api::ScopedTryLock, Api::TryRead, Api::ScopedTryRead].into_iter().filter(|a| rw || !a.is_read()).collect();
+            let api = *g.rng.pick(&apis);
+            let nflat = w.flatten(&w.targets[t], None).len();
+            let body = if nflat > 0 && g.rng.chance(1, 2) { vec![BodyOp::Read(g.rng.below(nflat))] } else { vec![] };
+            tester.push(Step::Acquire(Acq { target: t, rebuild: g.rng.chance(1, 4), api, lent_key: api.is_scoped() && g.rng.chance(1, 2), body, release: if g.rng.chance(1, 3) { Release::Unlock } else { Release::Drop } }));
+        }
+    }
+    tester.push(Step::GateOpen(done_gate));
+    w.gates = gates;
+    let mut threads = vec![tester];
+    threads.extend(holders);
+    let mut cfg = g.cfg(60);
+    cfg.faults.try_refuse_pct = 0;
+    Scenario { world: w, program: Program { threads }, cfg, profile: if nonacq { "C17".into() } else { "C13".into() } }
 }
